@@ -182,6 +182,19 @@ CHECKS["C24"] = dict(
               "SMT (z3 NRA) equality with the denotation per path",
     design="§4 C24", engine="E1")
 
+CHECKS["C28"] = dict(
+    level="translation_validation",
+    text="Every operation of the base-form algebra (FormSum construction, +, -, scalar *, Action/action, Adjoint/adjoint, "
+         "derivative + expand_derivatives, expand_derivatives as identity) is applied by the real code to atoms (Forms, "
+         "Matrices, Cofunctions, Coefficients, ZeroBaseForms, identity Arguments/Coarguments; rectangular spaces of "
+         "dimension 2 and 3) and to depth-1 composites; operands and result are assembled on a symbolic finite-dimensional "
+         "model (symbolic basis values at one quadrature point, symbolic matrix/vector entries, dofs and weights) and z3 "
+         "proves result == weighted sum / contraction / transpose / d-by-d-dof of the operands for all symbol values; the "
+         "reported argument spaces must follow the contraction rule, reported coefficients must cover the dependence of "
+         "the map, operands must not be modified.",
+    technique="SMT (z3 NRA) validation of each algebraic operation against tensor semantics on a symbolic finite-dimensional assembly model",
+    design="§4 C28", engine="E1")
+
 TABLE_NOTE = ("Trusted base: vlib/tables.py (SMT-LIB encoding of the relation tables) and z3. The tables are produced "
               "on every run by calling the real operators on every element / pair of the stated finite carrier; the "
               "claim is for that carrier.")
